@@ -14,7 +14,8 @@ where
     <N as ComplexField>::RealField: FromPrimitive + Copy,
 {
     let mut prev_err = N::RealField::one() + tol;
-    let mut prev_area = N::zero();
+    // no rule has been applied yet: the first one has nothing to be compared with
+    let mut prev_area: Option<N> = None;
 
     for weights in WEIGHTS_LEGENDRE {
         let area = weights
@@ -29,12 +30,15 @@ where
             })
             .fold(N::zero(), |sum, x| x + sum);
 
-        let err = (area - prev_area).abs();
+        let err = match prev_area {
+            Some(prev) => (area - prev).abs(),
+            None => tol + N::RealField::one(),
+        };
         if err < tol && prev_err < tol {
             return Ok(area);
         }
 
-        prev_area = area;
+        prev_area = Some(area);
         prev_err = err;
     }
 
@@ -91,7 +95,8 @@ where
         return Err("integrate_laguerre: tol must be positive".to_owned());
     }
 
-    let mut prev_area = N::zero();
+    // no rule has been applied yet: the first one has nothing to be compared with
+    let mut prev_area: Option<N> = None;
     let mut prev_err = N::RealField::one() + tol;
 
     for weight in WEIGHTS_LAGUERRE {
@@ -100,12 +105,15 @@ where
             .map(|(z, w)| N::from_f64(*w).unwrap() * f(N::from_f64(*z).unwrap().real()))
             .fold(N::zero(), |sum, x| sum + x);
 
-        let err = (area - prev_area).abs();
+        let err = match prev_area {
+            Some(prev) => (area - prev).abs(),
+            None => tol + N::RealField::one(),
+        };
         if err < tol && prev_err < tol {
             return Ok(area);
         }
 
-        prev_area = area;
+        prev_area = Some(area);
         prev_err = err;
     }
 
@@ -130,7 +138,8 @@ where
     }
 
     let mut prev_err = tol + N::RealField::one();
-    let mut prev_area = N::zero();
+    // no rule has been applied yet: the first one has nothing to be compared with
+    let mut prev_area: Option<N> = None;
 
     for weight in WEIGHTS_HERMITE {
         let area = weight
@@ -145,12 +154,15 @@ where
             })
             .fold(N::zero(), |sum, x| sum + x);
 
-        let err = (area - prev_area).abs();
+        let err = match prev_area {
+            Some(prev) => (area - prev).abs(),
+            None => tol + N::RealField::one(),
+        };
         if err < tol && prev_err < tol {
             return Ok(area);
         }
 
-        prev_area = area;
+        prev_area = Some(area);
         prev_err = err;
     }
 
@@ -175,7 +187,8 @@ where
     }
 
     let mut prev_err = tol + N::RealField::one();
-    let mut prev_area = N::zero();
+    // no rule has been applied yet: the first one has nothing to be compared with
+    let mut prev_area: Option<N> = None;
 
     for weight in WEIGHTS_CHEBYSHEV {
         let area = weight
@@ -190,13 +203,16 @@ where
             })
             .fold(N::zero(), |sum, x| sum + x);
 
-        let err = (area - prev_area).abs();
+        let err = match prev_area {
+            Some(prev) => (area - prev).abs(),
+            None => tol + N::RealField::one(),
+        };
         if err < tol && prev_err < tol {
             return Ok(area);
         }
 
         prev_err = err;
-        prev_area = area;
+        prev_area = Some(area);
     }
 
     Err("integrate_chebyshev: maximum iterations exceeded".to_owned())
@@ -222,7 +238,8 @@ where
         return Err("integrate_chebyshev_second: tol must be positive".to_owned());
     }
     let mut prev_err = tol + N::RealField::one();
-    let mut prev_area = N::zero();
+    // no rule has been applied yet: the first one has nothing to be compared with
+    let mut prev_area: Option<N> = None;
 
     for weight in WEIGHTS_CHEBYSHEV_SECOND {
         let area = weight
@@ -237,13 +254,16 @@ where
             })
             .fold(N::zero(), |sum, x| sum + x);
 
-        let err = (area - prev_area).abs();
+        let err = match prev_area {
+            Some(prev) => (area - prev).abs(),
+            None => tol + N::RealField::one(),
+        };
         if err < tol && prev_err < tol {
             return Ok(area);
         }
 
         prev_err = err;
-        prev_area = area;
+        prev_area = Some(area);
     }
 
     Err("integrate_chebyshev: maximum iterations exceeded".to_owned())
